@@ -123,7 +123,16 @@ def gen_hcase(rng, kn):
                 labels.append([n_['id'], l])
                 label(n_['children'])
         label(top)
-    return {'labels': labels, 'enum': bool(kn.enum),
+    # the machine-level shorthand "every state -> the same state" (`add_transition(ev, '*', '=')`): on a hierarchical
+    # machine it stands for a reflexive transition on every NESTED state name existing at that time; one script writes the
+    # shorthand (with the class's wildcard tokens, which a subclass may rename), another spells it out.  Derived from the
+    # description, no random choice consumed.
+    star_same = None
+    if (len(transitions) + len(history)) % 3 == 0:
+        star_same = {'ev': 2 * nev + 4}
+        history.insert(1, [0, 0, star_same['ev']])
+        history.append([0, 0, star_same['ev']])
+    return {'labels': labels, 'enum': bool(kn.enum), 'star_same': star_same,
             'top': top, 'transitions': transitions, 'initial': rng.choice(top)['id'], 'opts': opts, 'nev': nev,
             'cb_slot': sorted(cb_slot.items()), 'script': script, 'history': history,
             'vseeds': [rng.randrange(1 << 30) for _ in range(kn.nvariants)], 'detours': kn.detours}
@@ -240,6 +249,9 @@ def derive_h(case, vseed, identity=False):
         out['initial_rep'] = rng.choice(['enum', 'str']) if out['enum_tree'] else 'str'
         if out['enum_tree']:
             out['model_in_ctor'] = coin(0.5)
+    # how the "every state -> same state" family is written: spelled out, with the shorthand, or with the shorthand on a
+    # subclass that renames the wildcard tokens (drawn last: the other choices of a variant seed stay what they were)
+    out['ss'] = 'explicit' if identity else rng.choice(['short', 'explicit', 'custom'])
     return out
 
 
@@ -379,7 +391,8 @@ class RunH(build13.Run13):
             d[p['key']] = child
             d['remap'] = remap
             if locs[split:]:
-                d['transitions'] = locs[split:]     # on top of what the embedded machine brings along
+                # on top of what the embedded machine brings along (added by the PARENT class: its wildcard token)
+                d['transitions'] = self.local_defs(n, p, self.wild_all)[split:]
             return d
         kids = n['children']
         cut = len(kids) if p['defer_from'] is None else p['defer_from']
@@ -388,16 +401,17 @@ class RunH(build13.Run13):
         for c in kids[cut:]:
             deferred.append(c)
         if n['embed']:
-            d['transitions'] = self.local_defs(n, p)
+            d['transitions'] = self.local_defs(n, p, self.wild_all)
         return d
 
-    def local_defs(self, n, p):
-        """the local transitions of a compound in list / dict form; the wildcard source as '*' or spelled out"""
+    def local_defs(self, n, p, wild='*'):
+        """the local transitions of a compound in list / dict form; the wildcard source as '*' (`wild`: the token of
+        the machine class the definition is handed to) or spelled out"""
         out = []
         lw = p.get('lw') or ['star'] * len(n['embed']['local'])
         for (ev, s, t, cb), w in zip(n['embed']['local'], lw):
             if s == -1:
-                src = '*' if w == 'star' else [nname(c['id']) for c in n['children']]
+                src = wild if w == 'star' else [nname(c['id']) for c in n['children']]
             else:
                 src = nname(s)
             out.append(self.tdef(ev_name(ev), src, nname(t), cb, 'list' if (ev + t) % 2 else 'dict'))
@@ -428,6 +442,10 @@ class RunH(build13.Run13):
         mo = self.model_objs[0]
         deferred = []
         self.enum_id = {}
+        cls = HierarchicalMachine
+        if case.get('star_same') and self.v.get('ss') == 'custom':
+            cls = type('RenamedWildcards', (HierarchicalMachine,), {'wildcard_all': 'ANY', 'wildcard_same': 'SAME'})
+        self.wild_all = cls.wildcard_all
         enum_tree = self.v.get('enum_tree', False)
         if enum_tree:
             states = self.build_enums()
@@ -455,7 +473,7 @@ class RunH(build13.Run13):
                        for td, tp in zip(tdefs, tplan) if tp['via'] == 'ctor']
             if ctor_ts:
                 kw['transitions'] = ctor_ts
-        self.machine = m = HierarchicalMachine(**kw)
+        self.machine = m = cls(**kw)
         for n in case['top']:
             if n['embed'] and self.plan[n['id']]['embed'] != 'machine':
                 for ev, s, target, cb in n['embed']['exits']:
@@ -495,6 +513,13 @@ class RunH(build13.Run13):
                 m.remove_transition(ev_name(dt['ev']), source=full(self.paths, dt['src']))
             else:
                 m.remove_transition(ev_name(dt['ev']), source=full(self.paths, dt['src']), dest=full(self.paths, dt['dst']))
+        ss = case.get('star_same')
+        if ss:
+            if self.v.get('ss', 'explicit') == 'explicit':
+                for nm in m.get_nested_state_names():
+                    m.add_transition(ev_name(ss['ev']), nm, nm)
+            else:
+                m.add_transition(ev_name(ss['ev']), m.wildcard_all, m.wildcard_same)
         if not self.v['model_in_ctor']:
             m.add_model(mo)
 
